@@ -8,7 +8,7 @@
    pinned commit (false): differences are (i) an explicit segment id that is in use is refused
    instead of the ValueError being swallowed, (ii) an automatic id is the next FREE id from
    len(segments) on instead of len(segments), (iii) group_id == "all" no longer makes "all" include
-   itself.  Groups.optimise_all is the repaired optimiser in both cases (C14).
+   itself, (iv) the optimiser is Groups.optimise_all (C14 repair) instead of optimise_all_v0.
 
    Fields marked ghost are not observable in Python; they record with which arguments a segment was
    added and only serve to state the invariant. *)
@@ -174,71 +174,97 @@ Definition opt_group (group : option string) : option string :=
   | None => None
   end.
 
+(* parent=segs[k]; SegmentParent(segments=parent.id, fraction_along=frac) is validated (0 <= frac <= 1) *)
+Definition parent_of (c : cell) (parent : option nat) (frac : Z) : bres (option (Z * Z)) :=
+  match parent with
+  | None => BRet None
+  | Some k => match nth_error (segs c) k with
+              | Some p => if (Z.ltb frac 0 || Z.ltb 4 frac) then BErr BValidation
+                          else BRet (Some (sid p, frac))
+              | None => BErr BBadInput
+              end
+  end.
+
+Definition choose_id (fx : bool) (c : cell) (seg_id : option Z) : bres Z :=
+  match seg_id with
+  | Some z => if Z.eqb z 0 then BRet (auto_id fx (ids c))           (* `if seg_id:` *)
+              else if fx && memZ z (ids c) then BErr BDupId else BRet z
+  | None => BRet (auto_id fx (ids c))
+  end.
+
+(* use_convention / seg_type *)
+Definition parse_conv (conv : bool) (ty : option string) : bres (option stype) :=
+  if conv then
+    match ty with
+    | None => BErr BNoSegType
+    | Some tys => if String.eqb tys "" then BErr BNoSegType else
+                  match parse_type tys with
+                  | None => BErr BBadSegType
+                  | Some t => BRet (Some t)
+                  end
+    end
+  else BRet None.
+
+(* is the segment's own group INCLUDED in the default groups (true) or is the segment made a member
+   of the default groups (false)?   `if seg_group and seg_group.id != seg_group_default.id` (shipped),
+   `... not in [seg_group_default.id, seg_group_all.id]` (repaired) *)
+Definition own_group (fx : bool) (grp : option string) (t : stype) : bool :=
+  match grp with
+  | Some g => negb (String.eqb g (dname t)) && negb (fx && String.eqb g "all")
+  | None => false
+  end.
+
+Definition conv_groups (fx : bool) (G1 : list group) (grp : option string) (i : Z) (t : stype) (reord : bool)
+  : list group :=
+  let G2 := setup_default G1 t in
+  let G3 := match grp, own_group fx grp t with
+            | Some g, true => add_include (add_include G2 (dname t) g) "all" g
+            | _, _ => add_member (add_member G2 (dname t) i) "all" i
+            end in
+  if reord then reorder G3 else G3.
+
+(* everything add_segment does to the segment groups *)
+Definition seg_groups (fx : bool) (G : list group) (grp : option string) (i : Z) (tag : option stype) (reord : bool)
+  : list group :=
+  let G1 := match grp with
+            | Some g => add_member (ensure_group G g None) g i   (* found or created, member appended *)
+            | None => G
+            end in
+  match tag with
+  | Some t => conv_groups fx G1 grp i t reord
+  | None => G1
+  end.
+
+Definition seg_name (name : option string) (grp : option string) (G : list group) (i : Z) : string :=
+  match (match name with
+         | Some s => if String.eqb s "" then None else Some s     (* `if name:` *)
+         | None => None
+         end) with
+  | Some s => s
+  | None =>
+    match grp with
+    | Some g => let k := match lookup G g with Some gg => length (members gg) | None => 0 end in
+                "Seg" ++ string_of_Z (Z.of_nat k - 1) ++ "_" ++ g
+    | None => "Seg" ++ string_of_Z i
+    end
+  end.
+
 Definition add_segment (fx : bool) (c : cell)
            (prox : bool) (seg_id : option Z) (name : option string) (parent : option nat) (frac : Z)
            (group : option string) (conv : bool) (ty : option string) (reord opt : bool) : bres cell :=
-  let n := length (segs c) in
-  if (Nat.ltb 0 n) && (match parent with None => true | Some _ => false end) then BErr BNoParent else
-  match (match parent with
-         | None => BRet None
-         | Some k => match nth_error (segs c) k with
-                     | Some p => if (Z.ltb frac 0 || Z.ltb 4 frac) then BErr BValidation
-                                 else BRet (Some (sid p, frac))
-                     | None => BErr BBadInput
-                     end
-         end) with
+  if (Nat.ltb 0 (length (segs c))) && (match parent with None => true | Some _ => false end) then BErr BNoParent else
+  match parent_of c parent frac with
   | BErr e => BErr e
   | BRet sp =>
-    match (match seg_id with
-           | Some z => if Z.eqb z 0 then BRet (auto_id fx (ids c))           (* `if seg_id:` *)
-                       else if fx && memZ z (ids c) then BErr BDupId else BRet z
-           | None => BRet (auto_id fx (ids c))
-           end) with
+    match choose_id fx c seg_id with
     | BErr e => BErr e
     | BRet i =>
-      let grp := opt_group group in
-      (* the segment's own group: found or created, then the member is appended *)
-      let G1 := match grp with
-                | Some g => add_member (ensure_group (groups c) g None) g i
-                | None => groups c
-                end in
-      match (if conv then
-               match ty with
-               | None => BErr BNoSegType
-               | Some tys =>
-                 if String.eqb tys "" then BErr BNoSegType else
-                 match parse_type tys with
-                 | None => BErr BBadSegType
-                 | Some t =>
-                   let G2 := setup_default G1 t in
-                   let own := match grp with
-                              | Some g => negb (String.eqb g (dname t)) && negb (fx && String.eqb g "all")
-                              | None => false
-                              end in
-                   let G3 := match grp, own with
-                             | Some g, true => add_include (add_include G2 (dname t) g) "all" g
-                             | _, _ => add_member (add_member G2 (dname t) i) "all" i
-                             end in
-                   BRet (if reord then reorder G3 else G3, Some t)
-                 end
-               end
-             else BRet (G1, None)) with
+      match parse_conv conv ty with
       | BErr e => BErr e
-      | BRet (G4, tag) =>
-        let nm := match name with
-                  | Some s => if String.eqb s "" then None else Some s     (* `if name:` *)
-                  | None => None
-                  end in
-        let nm' := match nm with
-                   | Some s => s
-                   | None =>
-                     match grp with
-                     | Some g => let k := match lookup G4 g with Some gg => length (members gg) | None => 0 end in
-                                 "Seg" ++ string_of_Z (Z.of_nat k - 1) ++ "_" ++ g
-                     | None => "Seg" ++ string_of_Z i
-                     end
-                   end in
-        let c' := mkCell (segs c ++ [mkSeg i sp prox nm' tag grp]) G4 (props c) in
+      | BRet tag =>
+        let grp := opt_group group in
+        let G4 := seg_groups fx (groups c) grp i tag reord in
+        let c' := mkCell (segs c ++ [mkSeg i sp prox (seg_name name grp G4 i) tag grp]) G4 (props c) in
         if opt then (if fx then optimise c' else optimise_gen false c') else BRet c'
       end
     end
